@@ -4,11 +4,12 @@ HERE = os.path.dirname(os.path.dirname(os.path.abspath(__file__)))
 sys.path.insert(0, os.path.join(HERE, "harness")); sys.path.insert(0, HERE)
 props = [json.loads(l) for l in open(os.path.join(HERE, "properties.jsonl"))]
 na_reasons = json.load(open(os.path.join(HERE, "tools", "not_claimed.json"))) if os.path.exists(os.path.join(HERE, "tools", "not_claimed.json")) else {}
+ready = set(open(os.path.join(HERE, "tools", "ready.txt")).read().split())
 checks, na = [], []
 for p in props:
     pid = p["id"]
     f = os.path.join(HERE, "props", pid + ".py")
-    if os.path.exists(f) and pid not in na_reasons.get("_disabled", []):
+    if os.path.exists(f) and pid in ready:
         mod = importlib.import_module("props." + pid)
         checks.append({
             "property_id": pid,
